@@ -107,4 +107,301 @@ theorem pass1_gen (c : Cfg) (Q : Item → Prop)
         · exact Or.inr ⟨(src, ep, cl), hq, hex, hhu, rfl⟩
       · exact Or.inr h
 
+
+theorem pass1_mono (c : Cfg) (rem : List (String × String)) (w : List Item) (st : St) :
+    (∀ d ∈ st.deps, d ∈ (pass1 c rem w st).deps) := by
+  fun_induction pass1 c rem w st with
+  | case1 rem st => exact fun d hd => hd
+  | case2 rem src ep cl w st hskip ih => exact ih
+  | case3 rem src ep cl w st hskip st1 st2 hwalk ih =>
+    intro d hd
+    apply ih
+    show d ∈ st1.deps
+    simp only [st1]
+    split
+    · exact hd
+    · exact (addCall_mem st _ d).2 (Or.inl hd)
+  | case4 rem src ep cl w st hskip st1 st2 hwalk ih =>
+    intro d hd
+    apply ih
+    show d ∈ st1.deps
+    simp only [st1]
+    split
+    · exact hd
+    · exact (addCall_mem st _ d).2 (Or.inl hd)
+
+/-- every work item that passes the exclusion / human / hidden tests ends up as a dependency -/
+theorem pass1_complete (c : Cfg) (rem : List (String × String)) (w : List Item) (st : St) :
+    ∀ i ∈ w, c.excludes.contains i.2.2.app = false → c.human i.2.2.app = false →
+      c.hidden i.2.2.app i.2.2.ep = false → depOf i ∈ (pass1 c rem w st).deps := by
+  fun_induction pass1 c rem w st with
+  | case1 rem st => intro i hi; cases hi
+  | case2 rem src ep cl w st hskip ih =>
+    intro i hi hex hhu hhi
+    simp at hi
+    rcases hi with rfl | hi
+    · simp only [Bool.or_eq_true] at hskip
+      rcases hskip with h | h
+      · rw [hex] at h; cases h
+      · rw [hhu] at h; cases h
+    · exact ih i hi hex hhu hhi
+  | case3 rem src ep cl w st hskip st1 st2 hwalk ih =>
+    intro i hi hex hhu hhi
+    simp at hi
+    rcases hi with rfl | hi
+    · apply pass1_mono
+      show depOf (src, ep, cl) ∈ st1.deps
+      simp only [st1, hhi]
+      exact (addCall_mem st _ _).2 (Or.inr rfl)
+    · exact ih i (by simp [hi]) hex hhu hhi
+  | case4 rem src ep cl w st hskip st1 st2 hwalk ih =>
+    intro i hi hex hhu hhi
+    simp at hi
+    rcases hi with rfl | hi
+    · apply pass1_mono
+      show depOf (src, ep, cl) ∈ st1.deps
+      simp only [st1, hhi]
+      exact (addCall_mem st _ _).2 (Or.inr rfl)
+    · exact ih i hi hex hhu hhi
+
+theorem pass2_gen (c : Cfg) (seedSet : List String) (w : List Item) (st : St) :
+    (∀ d ∈ (pass2 c seedSet w st).deps, d ∈ st.deps ∨
+        ∃ i ∈ w, c.excludes.contains i.1 = false ∧ seedSet.contains i.2.2.app = true ∧ d = depOf i) ∧
+    (∀ a ∈ (pass2 c seedSet w st).finalApps, a ∈ st.finalApps ∨
+        ∃ i ∈ w, c.excludes.contains i.1 = false ∧ a = i.1) ∧
+    (∀ d ∈ st.deps, d ∈ (pass2 c seedSet w st).deps) := by
+  induction w generalizing st with
+  | nil => exact ⟨fun d hd => Or.inl hd, fun a ha => Or.inl ha, fun d hd => hd⟩
+  | cons i w ih =>
+    obtain ⟨src, ep, cl⟩ := i
+    simp only [pass2]
+    split
+    · obtain ⟨a, b, m⟩ := ih st
+      refine ⟨?_, ?_, m⟩
+      · intro d hd
+        rcases a d hd with h | ⟨i, hi, h⟩
+        · exact Or.inl h
+        · exact Or.inr ⟨i, by simp [hi], h⟩
+      · intro x hx
+        rcases b x hx with h | ⟨i, hi, h⟩
+        · exact Or.inl h
+        · exact Or.inr ⟨i, by simp [hi], h⟩
+    · rename_i hcond
+      simp only [Bool.or_eq_true, not_or, Bool.not_eq_true, Bool.not_eq_eq_eq_not, Bool.not_true] at hcond
+      obtain ⟨⟨hex, hseed⟩, _⟩ := hcond
+      have hseed' : seedSet.contains cl.app = true := by
+        cases hq : seedSet.contains cl.app <;> simp_all
+      obtain ⟨a, b, m⟩ := ih { (if c.hidden cl.app cl.ep then st else addCall st ⟨src, ep, cl.app, cl.ep⟩) with
+          finalApps := (if c.hidden cl.app cl.ep then st else addCall st ⟨src, ep, cl.app, cl.ep⟩).finalApps ++ [src] }
+      refine ⟨?_, ?_, ?_⟩
+      · intro d hd
+        rcases a d hd with h | ⟨i, hi, h⟩
+        · simp only at h
+          split at h
+          · exact Or.inl h
+          · rcases (addCall_mem st _ d).1 h with h' | rfl
+            · exact Or.inl h'
+            · exact Or.inr ⟨(src, ep, cl), by simp, hex, hseed', rfl⟩
+        · exact Or.inr ⟨i, by simp [hi], h⟩
+      · intro x hx
+        rcases b x hx with h | ⟨i, hi, h⟩
+        · simp only at h
+          simp at h
+          rcases h with h | h
+          · left
+            split at h
+            · exact h
+            · rw [addCall_final] at h; exact h
+          · exact Or.inr ⟨(src, ep, cl), by simp, hex, h⟩
+        · exact Or.inr ⟨i, by simp [hi], h⟩
+      · intro d hd
+        apply m
+        simp only
+        split
+        · exact hd
+        · exact (addCall_mem st _ d).2 (Or.inl hd)
+
+theorem pass3_gen (c : Cfg) (finalSet : List String) (w : List Item) (st : St) :
+    (∀ d ∈ (pass3 c finalSet w st).deps, d ∈ st.deps ∨
+        ∃ i ∈ w, finalSet.contains i.2.2.app = true ∧ d = depOf i) ∧
+    (pass3 c finalSet w st).finalApps = st.finalApps ∧
+    (∀ d ∈ st.deps, d ∈ (pass3 c finalSet w st).deps) := by
+  induction w generalizing st with
+  | nil => exact ⟨fun d hd => Or.inl hd, rfl, fun d hd => hd⟩
+  | cons i w ih =>
+    obtain ⟨src, ep, cl⟩ := i
+    simp only [pass3]
+    split
+    · obtain ⟨a, b, m⟩ := ih st
+      refine ⟨?_, b, m⟩
+      intro d hd
+      rcases a d hd with h | ⟨i, hi, h⟩
+      · exact Or.inl h
+      · exact Or.inr ⟨i, by simp [hi], h⟩
+    · rename_i hcond
+      simp only [Bool.or_eq_true, not_or, Bool.not_eq_true, Bool.not_eq_eq_eq_not, Bool.not_true] at hcond
+      have hfin : finalSet.contains cl.app = true := by
+        cases hq : finalSet.contains cl.app <;> simp_all
+      obtain ⟨a, b, m⟩ := ih (if c.hidden cl.app cl.ep then st else addCall st ⟨src, ep, cl.app, cl.ep⟩)
+      refine ⟨?_, ?_, ?_⟩
+      · intro d hd
+        rcases a d hd with h | ⟨i, hi, h⟩
+        · split at h
+          · exact Or.inl h
+          · rcases (addCall_mem st _ d).1 h with h' | rfl
+            · exact Or.inl h'
+            · exact Or.inr ⟨(src, ep, cl), by simp, hfin, rfl⟩
+        · exact Or.inr ⟨i, by simp [hi], h⟩
+      · rw [b]; split
+        · rfl
+        · exact addCall_final _ _
+      · intro d hd
+        apply m
+        split
+        · exact hd
+        · exact (addCall_mem st _ d).2 (Or.inl hd)
+
+/-- items of `workOf` are real calls of the model -/
+theorem workOf_isCall (c : Cfg) (a : App) : ∀ i ∈ workOf c a, i.2.2 ∈ c.callsOf i.1 i.2.1 := by
+  intro i hi
+  simp only [workOf, List.mem_flatMap, List.mem_map] at hi
+  obtain ⟨e, _, k, hk, rfl⟩ := hi
+  exact hk
+
+theorem workOf_src (c : Cfg) (a : App) : ∀ i ∈ workOf c a, i.1 = a.name := by
+  intro i hi
+  simp only [workOf, List.mem_flatMap, List.mem_map] at hi
+  obtain ⟨e, _, k, _, rfl⟩ := hi
+  rfl
+
+theorem app?_name (c : Cfg) (n : String) (a : App) (h : c.app? n = some a) : a.name = n := by
+  unfold Cfg.app? at h
+  have := List.find?_some h
+  simpa using this
+
+/-! ## PROPERTY THEOREMS (C14) -/
+
+/-- **ints_sound**: every dependency the builder records (hence every arrow drawn from it)
+    is a call statement of the source application's endpoint to the target, in the model. -/
+theorem ints_sound (c : Cfg) : ∀ d ∈ (build c).deps, c.isCall d := by
+  intro d hd
+  unfold build at hd
+  simp only at hd
+  -- pass 3
+  rcases (pass3_gen c _ _ _).1 d hd with h3 | ⟨i, hi, _, rfl⟩
+  · -- pass 2
+    rcases (pass2_gen c _ _ _).1 d h3 with h2 | ⟨i, hi, _, _, rfl⟩
+    · -- pass 1
+      have Q : ∀ i ∈ (seedApps c).flatMap (fun n => match c.app? n with | some a => workOf c a | none => []),
+          (fun (i : Item) => i.2.2 ∈ c.callsOf i.1 i.2.1) i := by
+        intro i hi
+        simp only [List.mem_flatMap] at hi
+        obtain ⟨n, _, hin⟩ := hi
+        cases hq : c.app? n with
+        | none => simp [hq] at hin
+        | some a => simp only [hq] at hin; exact workOf_isCall c a i hin
+      rcases (pass1_gen c (fun i => i.2.2 ∈ c.callsOf i.1 i.2.1)
+          (fun src ep cl k _ _ _ hk => hk) _ _ _ Q).1 d h2 with h1 | ⟨i, hq, _, _, rfl⟩
+      · cases h1
+      · exact hq
+    · simp only [List.mem_flatMap] at hi
+      obtain ⟨a, _, hia⟩ := hi
+      exact workOf_isCall c a i hia
+  · simp only [List.mem_flatMap] at hi
+    obtain ⟨n, _, hin⟩ := hi
+    cases hq : c.app? n with
+    | none => simp [hq] at hin
+    | some a => simp only [hq] at hin; exact workOf_isCall c a i hin
+
+/-- **ints_complete**: every call from a seed (listed) application to an application that is
+    not excluded and not a human actor, to an endpoint that is not hidden, is recorded. -/
+theorem ints_complete (c : Cfg) (n : String) (a : App) (hs : n ∈ seedApps c) (ha : c.app? n = some a)
+    (e : Ep) (he : e ∈ a.eps) (cl : Call) (hc : cl ∈ c.callsOf a.name e.name)
+    (hex : c.excludes.contains cl.app = false) (hhu : c.human cl.app = false)
+    (hhi : c.hidden cl.app cl.ep = false) :
+    (⟨a.name, e.name, cl.app, cl.ep⟩ : Dep) ∈ (build c).deps := by
+  unfold build
+  simp only
+  apply (pass3_gen c _ _ _).2.2
+  apply (pass2_gen c _ _ _).2.2
+  have : (a.name, e.name, cl) ∈ (seedApps c).flatMap (fun n => match c.app? n with | some a => workOf c a | none => []) := by
+    simp only [List.mem_flatMap]
+    refine ⟨n, hs, ?_⟩
+    simp only [ha, workOf, List.mem_flatMap, List.mem_map]
+    exact ⟨e, he, cl, hc, rfl⟩
+  exact pass1_complete c _ _ _ _ this hex hhu hhi
+
+/-- **ints_no_excluded**: when no listed application is itself on the exclude list, no
+    recorded dependency (hence no arrow) touches an excluded application. -/
+theorem ints_no_excluded (c : Cfg) (hseed : ∀ s ∈ c.seeds, c.excludes.contains s = false) :
+    ∀ d ∈ (build c).deps, c.excludes.contains d.src = false ∧ c.excludes.contains d.tgt = false := by
+  have hsa : ∀ s ∈ seedApps c, c.excludes.contains s = false := by
+    intro s hs
+    simp only [seedApps, List.mem_filter] at hs
+    exact hseed s hs.1
+  let w1 : List Item := (seedApps c).flatMap (fun n => match c.app? n with | some a => workOf c a | none => [])
+  let st0 : St := { finalApps := seedApps c, deps := [] }
+  let s1 : St := pass1 c (allPassthruEps c) w1 st0
+  let s2 : St := pass2 c (seedApps c) (c.apps.flatMap (workOf c)) s1
+  let w3 : List Item := s2.finalApps.flatMap (fun n => match c.app? n with | some a => workOf c a | none => [])
+  have hb : build c = pass3 c s2.finalApps w3 s2 := rfl
+  -- work of pass 1 has non-excluded sources
+  have Q1 : ∀ i ∈ w1, (fun (i : Item) => c.excludes.contains i.1 = false) i := by
+    intro i hi
+    simp only [w1, List.mem_flatMap] at hi
+    obtain ⟨n, hn, hin⟩ := hi
+    cases hq : c.app? n with
+    | none => simp [hq] at hin
+    | some a =>
+      simp only [hq] at hin
+      have := workOf_src c a i hin
+      show c.excludes.contains i.1 = false
+      rw [this, app?_name c n a hq]
+      exact hsa n hn
+  have P1 := pass1_gen c (fun i => c.excludes.contains i.1 = false)
+      (fun src ep cl k _ hex _ _ => hex) (allPassthruEps c) w1 st0 Q1
+  have D1 : ∀ d ∈ s1.deps, c.excludes.contains d.src = false ∧ c.excludes.contains d.tgt = false := by
+    intro d hd
+    rcases P1.1 d hd with h | ⟨i, hq, hex, _, rfl⟩
+    · cases h
+    · exact ⟨hq, hex⟩
+  have F1 : ∀ x ∈ s1.finalApps, c.excludes.contains x = false := by
+    intro x hx
+    rcases P1.2 x hx with h | ⟨i, _, hex, _, rfl⟩
+    · exact hsa x h
+    · exact hex
+  have F2 : ∀ x ∈ s2.finalApps, c.excludes.contains x = false := by
+    intro x hx
+    rcases (pass2_gen c (seedApps c) (c.apps.flatMap (workOf c)) s1).2.1 x hx with h | ⟨j, _, hex, rfl⟩
+    · exact F1 x h
+    · exact hex
+  have hseedset : ∀ x, (seedApps c).contains x = true → c.excludes.contains x = false := by
+    intro x hx; exact hsa x (by simpa using hx)
+  intro d hd
+  rw [hb] at hd
+  rcases (pass3_gen c s2.finalApps w3 s2).1 d hd with h3 | ⟨i, hi, hfin, rfl⟩
+  · rcases (pass2_gen c (seedApps c) (c.apps.flatMap (workOf c)) s1).1 d h3 with h2 | ⟨i, _, hex, hs, rfl⟩
+    · exact D1 d h2
+    · exact ⟨hex, hseedset _ hs⟩
+  · simp only [w3, List.mem_flatMap] at hi
+    obtain ⟨n, hn, hin⟩ := hi
+    cases hq : c.app? n with
+    | none => simp [hq] at hin
+    | some a =>
+      simp only [hq] at hin
+      have hsrc := workOf_src c a i hin
+      refine ⟨?_, F2 _ (by simpa [depOf] using hfin)⟩
+      show c.excludes.contains i.1 = false
+      rw [hsrc, app?_name c n a hq]
+      exact F2 n hn
+
+/-- the excluded point of `ints_no_excluded`: a listed application that is itself excluded IS
+    drawn (pass 1 does not test the source) -/
+theorem excluded_seed_is_drawn :
+    let c : Cfg := { apps := [⟨"A", false, [⟨"e", false, [⟨"B", "f"⟩]⟩]⟩, ⟨"B", false, [⟨"f", false, []⟩]⟩],
+                     seeds := ["A"], excludes := ["A"], passthru := [] }
+    (build c).deps = [⟨"A", "e", "B", "f"⟩] := by
+  simp [build, seedApps, Cfg.app?, workOf, Cfg.callsOf, Cfg.ep?, allPassthruEps, pass1, pass2, pass3,
+    Cfg.human, Cfg.hidden, addCall, List.eraseDups]
+
 end SyslModel.Ints
